@@ -17,7 +17,7 @@ LEVEL_RULE = (
 )
 EXHAUSTIVE_SUBDOMAINS = ["DF 0..31 x {56,112} bits x {upper,lower,mixed} for structured addresses (single-bit, all-ones, zero)"]
 ASSUMPTIONS = ["canonical form = the string icao() returns for an upper-case DF20 frame of the same address (%06X)"]
-REQUIRED = ["df%d" % d for d in range(32)] + ["ap_text_echoed_in_payload", "ap_field_boundary_value", "literal_structured_strings", "table_replies_of_strangers", "table_first_heard_by_tc0", "table_identical_repeats_for_minutes", "table_two_trackers_alive", "table_after_thousands_of_evictions", "table_identical_replies_two_aircraft", "case_upper", "case_lower", "case_mixed", "len56", "len112", "table_one_key",
+REQUIRED = ["df%d" % d for d in range(32)] + ["distinct_messages_pushed_through_by_4_threads", "ap_text_echoed_in_payload", "ap_field_boundary_value", "literal_structured_strings", "table_replies_of_strangers", "table_first_heard_by_tc0", "table_identical_repeats_for_minutes", "table_two_trackers_alive", "table_after_thousands_of_evictions", "table_identical_replies_two_aircraft", "case_upper", "case_lower", "case_mixed", "len56", "len112", "table_one_key",
                                               "allcall_rejects", "df_none"]
 
 AP = (0, 4, 5, 16, 20, 21)
@@ -273,13 +273,40 @@ def m_table(ctx, case):
         ctx.hit("table_replies_of_strangers")
 
 
-MONITORS = {"icao": m_icao, "table": m_table}
+def m_volthreads(ctx, case):
+    """far more distinct frames than a 17-bit bounded memo holds through icao() and hex2bin(), from 4 threads at once"""
+    from .. import volume
+    import pyModeS
+
+    def mk(r):
+        df = r.choice((17, 17, 18, 11, 0, 4, 5, 16, 20, 21, r.randrange(32)))
+        n = 112 if df >= 16 else 56
+        return "%0*X" % (n // 4, (df << (n - 5)) | r.getrandbits(n - 5))
+
+    def oracle(name, msg):
+        n = len(msg) * 4
+        x = int(msg, 16)
+        if name == "hex2bin":
+            return format(x, "0%db" % n)
+        df = min(x >> (n - 5), 24)
+        if df in (11, 17, 18):
+            return "%06X" % ((x >> (n - 32)) & 0xFFFFFF)
+        if df in (0, 4, 5, 16, 20, 21):
+            return "%06X" % bits.polymod(x, n)
+        return None
+    volume.run(ctx, [("icao", pyModeS.icao), ("hex2bin", pyModeS.common.hex2bin)], mk, oracle, total=case["total"])
+
+
+NO_OBSERVE = ("volthreads",)
+MONITORS = {"volthreads": m_volthreads, "icao": m_icao, "table": m_table}
 
 
 def cases(ctx):
     rng = ctx.rng
     quick = ctx.tier == "quick"
     i = 0
+    if ctx.mine(9):
+        yield "volthreads", {"total": 144000 if quick else 300000}
     structured = [0, 0xFFFFFF, 0xABCDEF, 0xFEDCBA, 0x00000A] + [1 << b for b in range(24)]
     for df in range(32):
         for n in (56, 112):
